@@ -163,6 +163,13 @@ Inductive wop : Type :=
 | WNodeID (z : Z)               (* Node.UpdateID, success path *)
 | WAttach | WDetach             (* NodeInterface.AddSentMessage / RemoveSentMessage *)
 | WBusAdd | WBusRemove          (* Bus.AddNodeInterface / RemoveNodeInterface *)
+| WDetachAll                    (* NodeInterface.RemoveAllSentMessages *)
+| WBusRemoveAll                 (* Bus.RemoveAllNodeInterfaces *)
+| WRemoveInterface              (* Node.RemoveInterface: takes the interface off its bus; the
+                                   message keeps its sender interface and that keeps its node *)
+| WFrame                        (* anything done to other entities: Network.AddBus / RemoveBus of
+                                   the bus, attaching / detaching another node's interface or
+                                   another message *)
 | WSetBuilder (i : nat)         (* Bus.SetCANIDBuilder(pool[i]) *)
 | WEdit (i : nat) (e : edit).   (* an edit of pool[i]; a refused edit changes nothing *)
 
@@ -180,9 +187,11 @@ Definition wstep (w : world) (o : wop) : world :=
   | WUpdateID y => mkWorld (u32 y) (w_prio w) 0 false (w_attached w) (w_on_bus w) (w_node_id w) (w_builders w) (w_cur w)
   | WNodeID z => mkWorld (w_id w) (w_prio w) (w_static w) (w_has_static w) (w_attached w) (w_on_bus w) (u32 z) (w_builders w) (w_cur w)
   | WAttach => mkWorld (w_id w) (w_prio w) (w_static w) (w_has_static w) true (w_on_bus w) (w_node_id w) (w_builders w) (w_cur w)
-  | WDetach => mkWorld (w_id w) (w_prio w) (w_static w) (w_has_static w) false (w_on_bus w) (w_node_id w) (w_builders w) (w_cur w)
+  | WDetach | WDetachAll => mkWorld (w_id w) (w_prio w) (w_static w) (w_has_static w) false (w_on_bus w) (w_node_id w) (w_builders w) (w_cur w)
   | WBusAdd => mkWorld (w_id w) (w_prio w) (w_static w) (w_has_static w) (w_attached w) true (w_node_id w) (w_builders w) (w_cur w)
-  | WBusRemove => mkWorld (w_id w) (w_prio w) (w_static w) (w_has_static w) (w_attached w) false (w_node_id w) (w_builders w) (w_cur w)
+  | WBusRemove | WBusRemoveAll | WRemoveInterface =>
+      mkWorld (w_id w) (w_prio w) (w_static w) (w_has_static w) (w_attached w) false (w_node_id w) (w_builders w) (w_cur w)
+  | WFrame => w
   | WSetBuilder i => mkWorld (w_id w) (w_prio w) (w_static w) (w_has_static w) (w_attached w) (w_on_bus w) (w_node_id w) (w_builders w) i
   | WEdit i e =>
       let b := nth i (w_builders w) [] in
